@@ -402,7 +402,10 @@ class _ScopeContext:
         check_all_param = self.check_all_param
         first_iter = ast.generators[0].iter
 
-        gen = fst_.walk(all, self_=False, back=back)  # no scope=True here because we do it manually
+        def check_inner(f: fst.FST) -> bool:  # the nodes we need to get to regardless of what the user wants yielded
+            return f.a is first_iter or (f.pfield.name == 'target' and f.parent.a.__class__ is NamedExpr)
+
+        gen = fst_.walk(check_inner, self_=False, back=back)  # no scope=True here because we do it manually, user `all` is not used for this walk because it would also filter out what we are looking for (and so everything below), is applied on yield
 
         for f in gen:  # we want to return all NamedExpr.target and first top-level .iter, yeah, its ugly
             a = f.a
@@ -410,11 +413,12 @@ class _ScopeContext:
             if a is first_iter:  # first generator iterator is in parent scope
                 subrecurse = 1  # wouldn't be here if recurse is not True, 1 to differentiate from True
 
-                while (sent := (yield f)) is not None:
-                    subrecurse = sent
+                if check_all_param(f):  # if the iterator itself is filtered out then its children are still walked as if it had been yielded and nothing sent
+                    while (sent := (yield f)) is not None:
+                        subrecurse = sent
 
-                if not (a := f.a):  # has been deleted by the player (if replaced then this FST node will still exist but the .a will have changed)
-                    continue
+                    if not (a := f.a):  # has been deleted by the player (if replaced then this FST node will still exist but the .a will have changed)
+                        continue
 
                 if subrecurse is True:  # user did send(True) so walk unconditionally
                     yield from f.walk(all, self_=False, back=back)  # if the user did send(True) (subrecurse=True) then we want to recurse uncondintionally (scope=False), otherwise subrecurse=1 and continue walking with scope=True
@@ -435,17 +439,15 @@ class _ScopeContext:
 
                 gen.send(False)  # we processed this node here so don't recurse into it
 
-            elif (  # all NamedExpr.targets are in parent scope
-                f.parent.a.__class__ is NamedExpr
-                and f.pfield.name == 'target'  # a.__class__ is Name
-            ):
+            else:  # NamedExpr.target (a.__class__ is Name), all of these are in parent scope
                 subrecurse = True
 
-                while (sent := (yield f)) is not None:
-                    subrecurse = sent
+                if check_all_param(f):
+                    while (sent := (yield f)) is not None:
+                        subrecurse = sent
 
-                if not (a := f.a):  # has been deleted by the player (if replaced then this FST node will still exist but the .a will have changed)
-                    continue
+                    if not (a := f.a):  # has been deleted by the player (if replaced then this FST node will still exist but the .a will have changed)
+                        continue
 
                 if subrecurse and check_all_param(f := a.ctx.f):  # truly pedantic, but maybe the user really really really wants that .ctx?
                     while (yield f) is not None:  # eat all the user's send()s
